@@ -1152,7 +1152,8 @@ def _enum_classes(members, form):
     key = json.dumps([members, form])
     if key in _ENUM_CLASSES:
         return _ENUM_CLASSES[key]
-    Kind = _enum.Enum("Kind", {n: (QName(v) if k == "qname" else v) for n, k, v in members})
+    Kind = _enum.Enum("Kind", {n: (QName(v) if k == "qname" else tuple(QName(x) for x in v) if k == "qname_list" else v)
+                               for n, k, v in members})
     if form == "element":
         fields = {"kind": (List[Kind], field(default_factory=list, metadata={"type": "Element"}))}
     elif form == "optional_element":
@@ -1182,7 +1183,7 @@ def gen_enum(rng, tier):
     element, text, attribute, token lists); several documents per case in which the prefixes are declared once on the
     root, rebound on every item, or rebound from one document to the next; one parser for all documents or one each"""
     for _ in range(n_cases(tier, 150, 3000)):
-        flavour = rng.choice(["qname", "qname", "qname", "str", "int"])
+        flavour = rng.choice(["qname", "qname", "qname", "qname_list", "str", "int"])
         members = []
         if flavour == "qname":
             locals_ = rng.sample(["item", "other", "x1"], rng.randint(1, 2))
@@ -1191,11 +1192,20 @@ def gen_enum(rng, tier):
                     members.append(["M%d_%s" % (ns_i, l.upper()), "qname", "{%s}%s" % (ns, l)])
             if rng.random() < 0.3:
                 members.append(["PLAIN", "qname", "plain"])
+        elif flavour == "qname_list":
+            # an enumeration of xs:list values: every member is a list of names
+            names_ = ["{%s}%s" % (ns, l) for ns in rng.sample(_ENUM_NS, 2) for l in ("item", "other")]
+            seen = []
+            for i in range(rng.randint(2, 4)):
+                v = rng.sample(names_, 2)
+                if v not in seen:
+                    seen.append(v)
+                    members.append(["L%d" % i, "qname_list", v])
         elif flavour == "str":
             members = [["S%d" % i, "str", v] for i, v in enumerate(rng.sample(["p:item", "q:item", "item", "a b", "x"], 3))]
         else:
             members = [["I%d" % i, "int", v] for i, v in enumerate(rng.sample([0, 1, 2, 10, -3], 3))]
-        form = rng.choice(_ENUM_FORMS)
+        form = rng.choice(_ENUM_FORMS if flavour != "qname_list" else ["element", "text", "attribute", "optional_element"])
         docs, expected = [], []
         for _d in range(rng.randint(1, 3)):
             style = rng.choice(["root_decls", "rebind_per_item", "one_prefix_per_doc"])
@@ -1208,17 +1218,20 @@ def gen_enum(rng, tier):
                 for _v in range(n_vals):
                     name, kind, value = rng.choice(members)
                     names.append(name)
-                    if kind == "qname" and value.startswith("{"):
-                        uri, local = value[1:].split("}")
-                        if style == "root_decls":
-                            p_ = "n" + str(_ENUM_NS.index(uri))
-                            root_decls[p_] = uri
-                        else:
-                            # the same prefix for whatever namespace comes first here: rebound at the next item / document
-                            free = [c for c in ("p", "q", "r") if decls.get(c, uri) == uri]
-                            p_ = free[0]
-                            decls[p_] = uri
-                        lex.append(p_ + ":" + local)
+                    if kind in ("qname", "qname_list") and (kind == "qname_list" or value.startswith("{")):
+                        pieces = []
+                        for comp in (value if kind == "qname_list" else [value]):
+                            uri, local = comp[1:].split("}")
+                            if style == "root_decls":
+                                p_ = "n" + str(_ENUM_NS.index(uri))
+                                root_decls[p_] = uri
+                            else:
+                                # the same prefix for whatever namespace comes first here: rebound at the next item / document
+                                free = [c for c in ("p", "q", "r") if decls.get(c, uri) == uri]
+                                p_ = free[0]
+                                decls[p_] = uri
+                            pieces.append(p_ + ":" + local)
+                        lex.append(" ".join(pieces))
                     elif kind == "int":
                         lex.append(rng.choice(["%d", " %d", "%d "]) % value)
                     else:
